@@ -12,10 +12,23 @@ from common import parse_sexp, atom_bytes
 NAME = 'T'
 
 
+# how listed files are named: 'plain' = path order equals list order; 'rev' / 'mixed' = the metainfo lists the files in an
+# order that differs from the lexicographic path order (torrents made by other clients do that)
+NAME_SCHEME = 'plain'
+
+
+def leaf_of(i):
+    if NAME_SCHEME == 'rev':
+        return 'r%02d' % (99 - i)
+    if NAME_SCHEME == 'mixed':
+        return '%s%02d' % ('mfazkb'[i % 6], i)
+    return 'f%02d' % i
+
+
 def relpath_of(i, nested=False):
     if nested and i % 3 == 1:
-        return ['d%d' % (i % 2), 'f%02d' % i]
-    return ['f%02d' % i]
+        return ['d%d' % (i % 2), leaf_of(i)]
+    return [leaf_of(i)]
 
 
 def make_torrent(sizes, L, nested=False, single=False, hashes=None, name=NAME):
